@@ -189,9 +189,13 @@ func init() {
 	}
 	stubs["golang.org/x/crypto/pbkdf2.Key"] = func(e *Exec, fn *ssa.Function, args []Value) Value {
 		n := args[3].(*smt.Term)
-		e.Notes["stub pbkdf2.Key (contract from golang.org/x/crypto source): panics for keyLen < 0; otherwise arbitrary bytes with len = keyLen and cap = ceil(keyLen/32)*32"] = true
+		e.Notes["stub pbkdf2.Key (contract from golang.org/x/crypto source): panics for keyLen < 0 and for keyLen above 2^48 (makeslice); otherwise arbitrary bytes with len = keyLen and cap = ceil(keyLen/32)*32"] = true
 		if e.branch(smt.SLt(n, c0)) {
 			e.goPanicf("pbkdf2.Key: slice bounds out of range / makeslice: cap out of range (keyLen < 0)")
+		}
+		if e.branch(smt.UGt(n, smt.Const(1<<48, 64))) {
+			// numBlocks*hashLen overflows or exceeds the runtime's maximal allocation (2^48 bytes)
+			e.goPanicf("pbkdf2.Key: makeslice: cap out of range (keyLen above the maximal allocation)")
 		}
 		k := e.fresh("dk", smt.StrS)
 		capT := smt.Mul(smt.UDiv(smt.Add(n, c64(31)), c64(32)), c64(32))
